@@ -448,6 +448,11 @@ def r6_timeout_order(ctx):
                 t = g.expr_rvalue(st['r'], b, i)
                 if any(x[0] == 'agg' and x[1].endswith('Result::Err') for x in walk(t)):
                     el = True
+    # (spliced closure / merged returns): some returned alternative is Ready(Err(..))
+    for _, t in ret_trees(g):
+        for x in walk(t):
+            if x[0] == 'agg' and str(x[1]).endswith('Poll::Ready') and any(y[0] == 'agg' and str(y[1]).endswith('Result::Err') for y in walk(x)):
+                el = True
     # same through Poll::map(delay.poll(cx), |()| Err(..))
     for s in g.calls():
         if s.name == 'std::task::Poll::map' and len(s.args) == 2:
